@@ -86,3 +86,5 @@ PROP = {'title': 'Safe API is total: no UB, crash or hang; failure only via opti
                  '/ pop_front; whether array::from_range copies elements before it compares the size',
                  'path results of replace_extension / remove_extension / strip_prefix are compared up to redundant separators (lexically_normal); '
                  'io::read_chars(stream, 0) has no expected result; integer-limit strings are run through the integer grammars for totality only']}
+
+PROP['rule'] += ' Session-3 extension (C01_more*.cpp, 111 further registry entries): time::gmtime/localtime/output_tm over a time_t boundary lattice x 6 TZ strings (documented std::runtime_error only), error::strerror/strerrno, error_code_to_string, getenv, type_name*, args/args_from_second on exact-size argv blocks, io::narrow_string/widen_string and from/to_std_string_locale over byte strings <= 3 incl. 0x00/0x80/0xFF, enum_ max_value/min_value/names_array/index_of_array/array_output, options::indent and error output, parse error/position output, cast::dynamic/dynamic_cross/dynamic_any on an 11-class hierarchy (every dynamic type x static view x target, against the built-in dynamic_cast), unique_ptr/shared_ptr pointer casts, variant::dynamic_cast_, promote_int/enum_to_underlying/safe_numeric, and the floating point helpers (angle_between, signed_angle_between, atan2, normalize, hypersphere_to_cartesian, point_rotate, rotation_*, infinity_norm, exponential_pade, interpolation::*, stretch_relative, grid::interpolate inside the cells) over a finite 16-value lattice without inf/NaN: totality only, values are info counters.'
